@@ -165,6 +165,10 @@ def step (s : S) : List String → S × String
     let rs := rules.map (parseRule (nat! ver))
     ({ s with rl := (s.rl.step id (.refresh (engineOf rs))).1, rlLru := [] }, "ok")
   | ["rl", "q", client, host, sub] => rlQuery s ⟨host, nat! sub⟩ client
+  | ["ss", "q", client, host, qt] =>
+    -- `safesearch.Filter.FilterRequest` (`RL.ssStep`): questions that do not pass the gate never
+    -- reach the rule list or its cache.
+    if ssGate (nat! qt) then rlQuery s ⟨host, 2 * nat! qt⟩ client else (s, "none")
   | ["hp", "new", rep] => ({ s with hp := HP.init, hpRep := parseRep rep, hpHits := [] }, "ok")
   | "hp" :: "refresh" :: hosts =>
     let s1 := (hpStep s (.store hosts)).1
